@@ -1475,3 +1475,28 @@ V("C12", "benign_ctor_single_loop_two_lists", "benign", None, (Z, """        for
             self_._instantiate_param(p, deepcopy=True)
         for p in list(params_to_ref.values()):
             self_._instantiate_param(p, deepcopy=False)"""))
+
+# link model
+V("C08", "update_ref_keeps_entry_for_none", "fire", "R08.l", (Z, """        if ref is None:
+            refs.pop(name, None)
+        else:
+            refs[name] = ref""", """        refs[name] = ref"""))
+V("C08", "setup_refs_watcher_not_recorded_for_single_dependency", "fire", "R08.l", (Z, """            refnames, pnames = zip(*pnames)
+            self_.self._param__private.ref_watchers.append((
+                refnames,
+                owner.param._watch(self_._sync_refs, list(set(pnames)), precedence=-1)
+            ))""", """            refnames, pnames = zip(*pnames)
+            watcher = owner.param._watch(self_._sync_refs, list(set(pnames)), precedence=-1)
+            if len(refnames) > 1:
+                self_.self._param__private.ref_watchers.append((refnames, watcher))"""))
+V("C10", "update_ref_cancels_without_deregistering", "fire", "R10.l", (Z, """        if name in param_private.async_refs:
+            param_private.async_refs.pop(name).cancel()
+        for _, watcher in param_private.ref_watchers:""", """        if name in param_private.async_refs:
+            param_private.async_refs[name].cancel()
+        for _, watcher in param_private.ref_watchers:"""))
+V("C08", "benign_update_ref_unwatch_via_helper_variable", "benign", None, (Z, """        for _, watcher in param_private.ref_watchers:
+            dep_obj = watcher.cls if watcher.inst is None else watcher.inst
+            dep_obj.param.unwatch(watcher)""", """        for entry in list(param_private.ref_watchers):
+            watcher = entry[1]
+            dep_obj = watcher.inst if watcher.inst is not None else watcher.cls
+            dep_obj.param.unwatch(watcher)"""))
